@@ -12,7 +12,7 @@ Definition mon_legal (o : obs) (te : tid * event) : bool :=
   | EState i s0 =>
       let x := oi_get o i in
       let prev := r_status (on_get o (o_nm x)) in
-      legal prev s0 || (o_byapi x && Nat.eqb (o_launches x) 0 && status_eqb s0 SPending)
+      legal prev s0 || (Nat.eqb (o_launches x) 0 && status_eqb s0 SPending)
       || (status_eqb prev SPending && status_eqb s0 SPending)
   | _ => true
   end.
